@@ -201,6 +201,7 @@ struct Sums {
     after_half_cases_clean: u64,
     slow_reader_cases_clean: u64,
     with_request_cases_clean: u64,
+    odd_cases_clean: u64,
     stray_cases_clean: u64,
     unsendable_cases_clean: u64,
     overlong_cases_clean: u64,
@@ -232,6 +233,11 @@ fn add_tcp(a: &mut TcpStats, b: &TcpStats) {
         *a.after_halfclose_end_kinds.entry(k.clone()).or_insert(0) += n;
     }
     a.slow_reader_backed_up += b.slow_reader_backed_up;
+    a.odd_bystander_completed += b.odd_bystander_completed;
+    a.odd_later_connection_worked += b.odd_later_connection_worked;
+    for (k, n) in &b.odd_request_ends {
+        *a.odd_request_ends.entry(k.clone()).or_insert(0) += n;
+    }
     if b.slow_reader_written_at_first_read_max > 0 {
         a.slow_reader_written_at_first_read_min = if a.slow_reader_written_at_first_read_max == 0 { b.slow_reader_written_at_first_read_min } else { a.slow_reader_written_at_first_read_min.min(b.slow_reader_written_at_first_read_min) };
         a.slow_reader_written_at_first_read_max = a.slow_reader_written_at_first_read_max.max(b.slow_reader_written_at_first_read_max);
@@ -309,6 +315,9 @@ struct Bounds {
     with_request_t2c_lens: Vec<usize>,
     /// ... and simultaneous connections
     with_request_concs: Vec<usize>,
+    /// odd-target-host sub-matrix: per entry point, how many hosts of `tcp::odd_hosts()` (from the
+    /// front of the list, those the entry point can express) are run; None: all of them
+    odd_hosts_per_entry: Vec<(Entry, Option<usize>)>,
 }
 
 /// payload lengths every dual-stack-listener topology is run with, in both tiers (a reply header
@@ -361,10 +370,10 @@ fn bounds_of_tier(args: &Args) -> Bounds {
     // the default receive window is 512 frames and the bridges read at most 8 KiB per frame, so
     // 512 * 8 KiB = 4 MiB is the least stream length that certainly needs a window update
     if args.thorough() {
-        Bounds { tcp_lens: vec![0, 1, 4099, 3 * 512 * 8192 + 5], tcp_len_window: None, slow_udp: true, concs: vec![1, 3, 5], udp_lens: vec![0, 1, 2, 3, 4, 5, 1400, 1472, 9000, 65000], deadline_s: 40, parallel: args.threads.clamp(1, 8), ipv6_loopback: tcp::ipv6_loopback(), tcp_v6_lens: vec![(1, 1), (70001, 70001)], udp_two_families: udp::ipv6_loopback(), udp_dual_listener_skip: (None, None), udp_dual_listener_lens: Vec::new(), udp_dual_listener_lens_3: Vec::new(), tcp_dual_lens: vec![(4099, 4099)], after_half_lens: vec![1, 3 * 512 * 8192 + 5], after_half_conc3_len: Some(4099), slow_reader_len: 48 << 20, slow_reader_stall_s: 5, slow_reader_points: slow_points(&[Entry::TcpRemote, Entry::UnixRemote, Entry::Socks5Ip, Entry::Socks5Domain, Entry::HttpConnect], &[Entry::TcpRemote, Entry::Socks5Ip]), with_request_c2t_lens: vec![1, 999, 4099, 70001], with_request_t2c_lens: vec![0, 1, 4099, 70001], with_request_concs: vec![1, 3] }
+        Bounds { tcp_lens: vec![0, 1, 4099, 3 * 512 * 8192 + 5], tcp_len_window: None, slow_udp: true, concs: vec![1, 3, 5], udp_lens: vec![0, 1, 2, 3, 4, 5, 1400, 1472, 9000, 65000], deadline_s: 40, parallel: args.threads.clamp(1, 8), ipv6_loopback: tcp::ipv6_loopback(), tcp_v6_lens: vec![(1, 1), (70001, 70001)], udp_two_families: udp::ipv6_loopback(), udp_dual_listener_skip: (None, None), udp_dual_listener_lens: Vec::new(), udp_dual_listener_lens_3: Vec::new(), tcp_dual_lens: vec![(4099, 4099)], after_half_lens: vec![1, 3 * 512 * 8192 + 5], after_half_conc3_len: Some(4099), slow_reader_len: 48 << 20, slow_reader_stall_s: 5, slow_reader_points: slow_points(&[Entry::TcpRemote, Entry::UnixRemote, Entry::Socks5Ip, Entry::Socks5Domain, Entry::HttpConnect], &[Entry::TcpRemote, Entry::Socks5Ip]), with_request_c2t_lens: vec![1, 999, 4099, 70001], with_request_t2c_lens: vec![0, 1, 4099, 70001], with_request_concs: vec![1, 3], odd_hosts_per_entry: tcp::ODD_ENTRIES.iter().map(|e| (*e, None)).collect() }
     } else {
         // 70001 B: nine 8 KiB frames, everywhere; 4198403 B (one window + 4099 B: needs a window update): sub-matrix
-        Bounds { tcp_lens: vec![0, 1, 70001], tcp_len_window: Some(512 * 8192 + 4099), slow_udp: false, concs: vec![1, 3], udp_lens: vec![0, 1, 3, 4, 1400], deadline_s: 30, parallel: args.threads.clamp(1, 8), ipv6_loopback: tcp::ipv6_loopback(), tcp_v6_lens: vec![(1, 1), (70001, 70001)], udp_two_families: udp::ipv6_loopback(), udp_dual_listener_skip: (None, None), udp_dual_listener_lens: Vec::new(), udp_dual_listener_lens_3: Vec::new(), tcp_dual_lens: vec![(4099, 4099)], after_half_lens: vec![1, 512 * 8192 + 4099], after_half_conc3_len: Some(70001), slow_reader_len: 24 << 20, slow_reader_stall_s: 3, slow_reader_points: vec![(Entry::TcpRemote, true, 1), (Entry::Socks5Ip, false, 2)], with_request_c2t_lens: vec![1, 4099, 70001], with_request_t2c_lens: vec![0, 1, 70001], with_request_concs: vec![1, 3] }
+        Bounds { tcp_lens: vec![0, 1, 70001], tcp_len_window: Some(512 * 8192 + 4099), slow_udp: false, concs: vec![1, 3], udp_lens: vec![0, 1, 3, 4, 1400], deadline_s: 30, parallel: args.threads.clamp(1, 8), ipv6_loopback: tcp::ipv6_loopback(), tcp_v6_lens: vec![(1, 1), (70001, 70001)], udp_two_families: udp::ipv6_loopback(), udp_dual_listener_skip: (None, None), udp_dual_listener_lens: Vec::new(), udp_dual_listener_lens_3: Vec::new(), tcp_dual_lens: vec![(4099, 4099)], after_half_lens: vec![1, 512 * 8192 + 4099], after_half_conc3_len: Some(70001), slow_reader_len: 24 << 20, slow_reader_stall_s: 3, slow_reader_points: vec![(Entry::TcpRemote, true, 1), (Entry::Socks5Ip, false, 2)], with_request_c2t_lens: vec![1, 4099, 70001], with_request_t2c_lens: vec![0, 1, 70001], with_request_concs: vec![1, 3], odd_hosts_per_entry: vec![(Entry::Socks5Domain, None), (Entry::Socks4a, Some(ODD_QUICK_HANDFUL)), (Entry::HttpConnect, Some(ODD_QUICK_HANDFUL))] }
     }
 }
 
@@ -391,7 +400,7 @@ fn dual_matrix(b: &Bounds) -> Vec<Case> {
         for listen in Listen::ALL {
             for entry in tcp::DUAL_ENTRIES {
                 for &(c2t, t2c) in &b.tcp_dual_lens {
-                    v.push(Case::Tcp(TcpCase { entry, c2t, t2c, chunk: DUAL_CHUNK, order: DUAL_ORDER, conc: DUAL_CONC, dual: Some(Dual { name, listen }), slow: None }));
+                    v.push(Case::Tcp(TcpCase { entry, c2t, t2c, chunk: DUAL_CHUNK, order: DUAL_ORDER, conc: DUAL_CONC, dual: Some(Dual { name, listen }), slow: None, odd: None }));
                 }
             }
         }
@@ -411,7 +420,7 @@ fn slow_matrix(b: &Bounds) -> Vec<TcpCase> {
                 SlowDir::Download => (tcp::SLOW_REVERSE_LEN, b.slow_reader_len),
                 SlowDir::Upload => (b.slow_reader_len, tcp::SLOW_REVERSE_LEN),
             };
-            v.push(TcpCase { entry, c2t, t2c, chunk: tcp::SLOW_CHUNK, order, conc, dual: None, slow: Some(Slow { dir, stall_s: b.slow_reader_stall_s }) });
+            v.push(TcpCase { entry, c2t, t2c, chunk: tcp::SLOW_CHUNK, order, conc, dual: None, slow: Some(Slow { dir, stall_s: b.slow_reader_stall_s }), odd: None });
         }
     }
     v
@@ -431,10 +440,25 @@ fn with_request_matrix(b: &Bounds) -> Vec<TcpCase> {
             for order in tcp::WITH_REQUEST_ORDERS {
                 for &c2t in b.with_request_c2t_lens.iter().filter(|l| **l > 0) {
                     for &t2c in &b.with_request_t2c_lens {
-                        v.push(TcpCase { entry, c2t, t2c, chunk: Chunk::WithRequest, order, conc, dual: None, slow: None });
+                        v.push(TcpCase { entry, c2t, t2c, chunk: Chunk::WithRequest, order, conc, dual: None, slow: None, odd: None });
                     }
                 }
             }
+        }
+    }
+    v
+}
+
+/// quick tier: hosts of the odd-target-host sub-matrix at the entry points other than SOCKS5-domain
+const ODD_QUICK_HANDFUL: usize = 5;
+
+/// The odd-target-host sub-matrix ("odd target host next to a bystander", see `tcp::ODD_KEY`):
+/// entry point at which the local application names the host x odd host, completely enumerated.
+fn odd_matrix(b: &Bounds) -> Vec<TcpCase> {
+    let mut v = Vec::new();
+    for &(entry, cap) in &b.odd_hosts_per_entry {
+        for (host, _) in tcp::odd_hosts().into_iter().filter(|(h, _)| tcp::odd_expressible(entry, h)).take(cap.unwrap_or(usize::MAX)) {
+            v.push(TcpCase { entry, c2t: tcp::ODD_LEN, t2c: tcp::ODD_LEN, chunk: tcp::ODD_CHUNK, order: tcp::ODD_ORDER, conc: 1, dual: None, slow: None, odd: Some(host) });
         }
     }
     v
@@ -445,6 +469,7 @@ fn matrix(b: &Bounds) -> Vec<Case> {
     // they start first and run beside everything else (see `weight` and the pool)
     v.extend(slow_matrix(b).into_iter().map(Case::Tcp));
     v.extend(with_request_matrix(b).into_iter().map(Case::Tcp));
+    v.extend(odd_matrix(b).into_iter().map(Case::Tcp));
     for entry in Entry::ALL {
         for &conc in &b.concs {
             for chunk in Chunk::ALL {
@@ -458,11 +483,11 @@ fn matrix(b: &Bounds) -> Vec<Case> {
                     for &c2t in &lens {
                         if order == Order::Refuse {
                             // no target: the target->client payload does not exist
-                            v.push(Case::Tcp(TcpCase { entry, c2t, t2c: 0, chunk, order, conc, dual: None, slow: None }));
+                            v.push(Case::Tcp(TcpCase { entry, c2t, t2c: 0, chunk, order, conc, dual: None, slow: None, odd: None }));
                             continue;
                         }
                         for &t2c in &lens {
-                            v.push(Case::Tcp(TcpCase { entry, c2t, t2c, chunk, order, conc, dual: None, slow: None }));
+                            v.push(Case::Tcp(TcpCase { entry, c2t, t2c, chunk, order, conc, dual: None, slow: None, odd: None }));
                         }
                     }
                 }
@@ -474,11 +499,11 @@ fn matrix(b: &Bounds) -> Vec<Case> {
         for order in Order::AFTER_HALF {
             for &c2t in &b.after_half_lens {
                 for &t2c in &b.after_half_lens {
-                    v.push(Case::Tcp(TcpCase { entry, c2t, t2c, chunk: AFTER_HALF_CHUNK, order, conc: 1, dual: None, slow: None }));
+                    v.push(Case::Tcp(TcpCase { entry, c2t, t2c, chunk: AFTER_HALF_CHUNK, order, conc: 1, dual: None, slow: None, odd: None }));
                 }
             }
             if let Some(l) = b.after_half_conc3_len {
-                v.push(Case::Tcp(TcpCase { entry, c2t: l, t2c: l, chunk: AFTER_HALF_CHUNK, order, conc: AFTER_HALF_CONC_MANY, dual: None, slow: None }));
+                v.push(Case::Tcp(TcpCase { entry, c2t: l, t2c: l, chunk: AFTER_HALF_CHUNK, order, conc: AFTER_HALF_CONC_MANY, dual: None, slow: None, odd: None }));
             }
         }
     }
@@ -486,7 +511,7 @@ fn matrix(b: &Bounds) -> Vec<Case> {
         // target on [::1], named as an IPv6 literal by the entry points that can express one
         for entry in Entry::V6 {
             for &(c2t, t2c) in &b.tcp_v6_lens {
-                v.push(Case::Tcp(TcpCase { entry, c2t, t2c, chunk: V6_CHUNK, order: V6_ORDER, conc: V6_CONC, dual: None, slow: None }));
+                v.push(Case::Tcp(TcpCase { entry, c2t, t2c, chunk: V6_CHUNK, order: V6_ORDER, conc: V6_CONC, dual: None, slow: None, odd: None }));
             }
         }
     }
@@ -592,7 +617,7 @@ const SELF_TEST_SLOW_STALL_S: u64 = 1;
 fn control_self_test() -> Result<(), String> {
     let rt = tokio::runtime::Builder::new_multi_thread().worker_threads(3).thread_name("c01-selftest").enable_all().build().map_err(|e| format!("runtime: {e}"))?;
     let res = rt.block_on(async {
-        let mk = |order, c2t, t2c, conc| TcpCase { entry: Entry::TcpRemote, c2t, t2c, chunk: Chunk::Seven, order, conc, dual: None, slow: None };
+        let mk = |order, c2t, t2c, conc| TcpCase { entry: Entry::TcpRemote, c2t, t2c, chunk: Chunk::Seven, order, conc, dual: None, slow: None, odd: None };
         // a faithful relay is indistinguishable from a direct connection: the oracle must be silent
         for order in [Order::ClientHalf, Order::TargetHalf, Order::ClientClose, Order::TargetClose] {
             for (a, b) in [(0usize, 0usize), (1, 1), (70001, 5), (0, 70001)] {
@@ -623,7 +648,7 @@ fn control_self_test() -> Result<(), String> {
         // connection; one that cuts a stream short when its queue is full is caught (side by side)
         let slow = |dir: SlowDir, half: bool| {
             let (c2t, t2c) = if dir == SlowDir::Download { (tcp::SLOW_REVERSE_LEN, SELF_TEST_SLOW_LEN) } else { (SELF_TEST_SLOW_LEN, tcp::SLOW_REVERSE_LEN) };
-            TcpCase { entry: Entry::TcpRemote, c2t, t2c, chunk: Chunk::K16, order: dir.orders()[usize::from(!half)], conc: 1, dual: None, slow: Some(Slow { dir, stall_s: SELF_TEST_SLOW_STALL_S }) }
+            TcpCase { entry: Entry::TcpRemote, c2t, t2c, chunk: Chunk::K16, order: dir.orders()[usize::from(!half)], conc: 1, dual: None, slow: Some(Slow { dir, stall_s: SELF_TEST_SLOW_STALL_S }), odd: None }
         };
         let (down, up, cut) = (slow(SlowDir::Download, true), slow(SlowDir::Upload, false), slow(SlowDir::Download, false));
         let dl_s = down.deadline_s(20);
@@ -1220,6 +1245,7 @@ pub fn run(args: &Args) -> Report {
                                         Case::Udp(_) => g.udp_cases_clean += 1,
                                     }
                                     match case {
+                                        Case::Tcp(t) if t.odd.is_some() => g.odd_cases_clean += 1,
                                         Case::Tcp(t) if t.slow.is_some() => g.slow_reader_cases_clean += 1,
                                         Case::Tcp(t) if t.chunk == Chunk::WithRequest => g.with_request_cases_clean += 1,
                                         Case::Tcp(t) if t.entry.v6literal() => g.v6_cases_clean += 1,
@@ -1410,6 +1436,15 @@ pub fn run(args: &Args) -> Report {
         tcp::WITH_REQUEST_HEAD,
         tcp::WITH_REQUEST_KEY_SUFFIX
     );
+    let odd_cases: Vec<TcpCase> = odd_matrix(&b);
+    let odd_rule = format!(
+        "; plus the odd-target-host sub-matrix (an odd target host next to a bystander; one client, one server): entry point at which the local application names the target host itself x host, completely enumerated: {}; hosts (hex): {:?}; per point: local connection X goes through the entry point to the ordinary target and exchanges the first halves of {len}-octet payloads (one per direction), then local connection Y asks the SAME entry point for the odd host, port {}: Y is owed what a target that cannot be reached is owed (a failure reply, or its connection closed or reset before the deadline; an answer is otherwise not judged); THEN X must exchange the second halves, half-close and see the target's EOF with every octet equal end to end (key tcp.bystander-broken.{k}.<entry>; tcp.hang.bystander.{k}.<entry> when it only stalls), and a NEW local connection Z through the same entry point to the ordinary target must be granted, exchange {len} octets per direction and be closed in order (key tcp.later-connection-fails.{k}.<entry>); Y left open to the deadline is key tcp.hang.{k}.<entry>",
+        b.odd_hosts_per_entry.iter().map(|(e, _)| format!("{} x {} hosts", e.name(), odd_cases.iter().filter(|c| c.entry == *e).count())).collect::<Vec<_>>().join(", "),
+        tcp::odd_hosts().iter().map(|(h, _)| vcommon::report::hex(h)).collect::<Vec<_>>(),
+        tcp::ODD_PORT,
+        len = tcp::ODD_LEN,
+        k = tcp::ODD_KEY
+    );
     let v6_rule = if b.ipv6_loopback {
         format!("; plus the IPv6-literal sub-matrix (target listens on [::1]): entry point (remote specification with [::1]:port, SOCKS5 CONNECT with ATYP=4, HTTP CONNECT [::1]:port) x (client->target, target->client) lengths {:?}, {} connection, {}, {}", b.tcp_v6_lens, V6_CONC, V6_CHUNK.name(), V6_ORDER.name())
     } else {
@@ -1471,7 +1506,7 @@ pub fn run(args: &Args) -> Report {
         udp::OVERLONG_TCP_LEN,
         udp::OVERLONG_KEY
     );
-    rep.rule = format!("complete product, every point enumerated (no sampling): TCP = entry point (7) x connections {:?} x chunking (3) x [close order (4) x client->target length in L x target->client length in L + target-refuses x client->target length in L], where {len_rule}{after_half_rule}{slow_rule}{with_request_rule}{v6_rule}{dual_rule}; UDP = entry (UDP remote, SOCKS5 UDP with IPv4 header, with domain header) x topology (1 client, 3 clients, 1 socket to 2 entry points, 1 client whose payload lengths change from datagram to datagram (len, 3, len+500, 0, len+1); SOCKS5 only: 1 association alternating between 2 targets with the same host string and different ports, and between 2 targets with different host strings 127.0.0.1/127.0.0.2 and the same port) x payload length, 3 request/reply exchanges per leg{stray_rule}{unsendable_rule}{overlong_rule}{families_rule}{dual_listener_rule}{}; one execution per point (more only after a lost port race or a deadline hit); a case is distinct when its parameter tuple is distinct", b.concs, {
+    rep.rule = format!("complete product, every point enumerated (no sampling): TCP = entry point (7) x connections {:?} x chunking (3) x [close order (4) x client->target length in L x target->client length in L + target-refuses x client->target length in L], where {len_rule}{after_half_rule}{slow_rule}{with_request_rule}{odd_rule}{v6_rule}{dual_rule}; UDP = entry (UDP remote, SOCKS5 UDP with IPv4 header, with domain header) x topology (1 client, 3 clients, 1 socket to 2 entry points, 1 client whose payload lengths change from datagram to datagram (len, 3, len+500, 0, len+1); SOCKS5 only: 1 association alternating between 2 targets with the same host string and different ports, and between 2 targets with different host strings 127.0.0.1/127.0.0.2 and the same port) x payload length, 3 request/reply exchanges per leg{stray_rule}{unsendable_rule}{overlong_rule}{families_rule}{dual_listener_rule}{}; one execution per point (more only after a lost port race or a deadline hit); a case is distinct when its parameter tuple is distinct", b.concs, {
         let newcomer = format!("3 local clients with one pruned before a newcomer: A and B make one exchange each ({}-byte payloads), A goes silent, B makes one exchange per second for 2*UDP_PRUNE_TIMEOUT+{} = {} s (A is pruned on the client side, B never is), then a NEW client C makes one exchange, B one more, C one more: every reply at exactly the socket that sent the request (keys end in {}; see assumptions)", udp::SLOW_LEN, udp::NEWCOMER_EXTRA_S, 2 * udp::prune_timeout().as_secs() + udp::NEWCOMER_EXTRA_S, udp::NEWCOMER_KEY_SUFFIX);
         let idle = format!("idle: one exchange, {} s of silence, one more exchange | idle gap between one and two prune timeouts: one exchange, {} s of silence, one more exchange from the same socket whose FIRST transmission must be at the target within {} ms", 2 * udp::prune_timeout().as_secs() + 1, udp::prune_timeout().as_secs() + udp::GAP_EXTRA_S, udp::GAP_FIRST_TX_MS);
         if b.slow_udp {
@@ -1546,6 +1581,12 @@ pub fn run(args: &Args) -> Report {
     rep.bounds.insert("tcp_with_request_payload_lengths_t2c".into(), json!(b.with_request_t2c_lens));
     rep.bounds.insert("tcp_with_request_bytes_in_the_write_of_the_request_at_most".into(), json!(tcp::WITH_REQUEST_HEAD));
     rep.bounds.insert("tcp_with_request_cases".into(), json!(with_request_cases.len()));
+    rep.bounds.insert("tcp_odd_target_host_entry_points".into(), json!(b.odd_hosts_per_entry.iter().map(|(e, _)| e.name()).collect::<Vec<_>>()));
+    rep.bounds.insert("tcp_odd_target_host_hosts".into(), json!(tcp::odd_hosts().iter().map(|(h, what)| json!({"hex": vcommon::report::hex(h), "lossy": String::from_utf8_lossy(h), "what": what})).collect::<Vec<_>>()));
+    rep.bounds.insert("tcp_odd_target_host_hosts_per_entry_point_hex".into(), json!(b.odd_hosts_per_entry.iter().map(|(e, _)| (e.name().to_string(), odd_cases.iter().filter(|c| c.entry == *e).filter_map(|c| c.odd.as_ref().map(|h| vcommon::report::hex(h))).collect::<Vec<_>>())).collect::<BTreeMap<_, _>>()));
+    rep.bounds.insert("tcp_odd_target_host_port".into(), json!(tcp::ODD_PORT));
+    rep.bounds.insert("tcp_odd_target_host_payload_length_per_direction".into(), json!(tcp::ODD_LEN));
+    rep.bounds.insert("tcp_odd_target_host_cases".into(), json!(odd_cases.len()));
     rep.bounds.insert("udp_entries".into(), json!(UKind::ALL.iter().map(|e| e.name()).collect::<Vec<_>>()));
     rep.bounds.insert("udp_topologies".into(), json!(Topo::ALL.iter().map(|e| e.name()).collect::<Vec<_>>()));
     rep.bounds.insert("udp_payload_lengths".into(), json!(b.udp_lens));
@@ -1605,6 +1646,10 @@ pub fn run(args: &Args) -> Report {
     rep.extra.insert("tcp_closed_after_half_close_then_close_write_error_kinds".into(), json!(sums.tcp.after_halfclose_end_kinds));
     rep.extra.insert("tcp_slow_reader_cases_clean".into(), json!(sums.slow_reader_cases_clean));
     rep.extra.insert("tcp_with_request_cases_clean".into(), json!(sums.with_request_cases_clean));
+    rep.extra.insert("tcp_odd_target_host_cases_clean".into(), json!(sums.odd_cases_clean));
+    rep.extra.insert("tcp_odd_target_host_bystander_completed".into(), json!(sums.tcp.odd_bystander_completed));
+    rep.extra.insert("tcp_odd_target_host_later_connection_worked".into(), json!(sums.tcp.odd_later_connection_worked));
+    rep.extra.insert("tcp_odd_target_host_how_the_odd_request_ended".into(), json!(sums.tcp.odd_request_ends));
     rep.extra.insert("tcp_slow_reader_cases_verified_with_every_writer_held_back_at_first_read".into(), json!(sums.tcp.slow_reader_backed_up));
     rep.extra.insert("tcp_slow_reader_bytes_written_per_connection_at_first_read_min_max".into(), json!([sums.tcp.slow_reader_written_at_first_read_min, sums.tcp.slow_reader_written_at_first_read_max]));
     rep.extra.insert("refuse_granted_then_closed".into(), json!(sums.tcp.refuse_granted_then_closed));
@@ -1638,7 +1683,8 @@ pub fn run(args: &Args) -> Report {
             rep.sample(c.to_json());
         }
     }
-    let picks: [&dyn Fn(&Case) -> bool; 16] = [
+    let picks: [&dyn Fn(&Case) -> bool; 17] = [
+        &|c| matches!(c, Case::Tcp(t) if t.entry == Entry::Socks5Domain && t.odd.as_deref() == Some(&b"["[..])),
         &|c| matches!(c, Case::Udp(u) if u.kind == UKind::Remote && u.topo == Topo::PruneThenNewcomer),
         &|c| matches!(c, Case::Udp(u) if u.topo == Topo::OverlongHost256),
         &|c| matches!(c, Case::Tcp(t) if t.chunk == Chunk::WithRequest && t.entry == Entry::Socks5Domain && t.order == Order::ClientHalf && t.conc == 1 && t.c2t > tcp::WITH_REQUEST_HEAD && t.t2c > 1),
@@ -1668,6 +1714,7 @@ pub fn run(args: &Args) -> Report {
     rep.assumptions.push(format!("close-after-half-close orders: only 'the still-sending end's writes begin to fail before the deadline' is judged about the close (which error, and whether a reset or an EOF came first, is recorded in extra.tcp_closed_after_half_close_then_close_write_error_kinds); the closing end closes after the other end's payload and {} filler bytes or {} ms, whichever comes first (extra.tcp_closed_after_half_close_then_close_filler_read_before_close counts the closes that had read filler); the filler received must be a prefix of the filler sent", tcp::AFTER_HALF_FILLER_READ, tcp::AFTER_HALF_LINGER.as_millis()));
     rep.assumptions.push(format!("slow-reader sub-matrix: the stall is a fixed time ({} s), not 'until the writer blocks'; that the writers were in fact held back when the reading began (payload bytes left to write on every connection) is recorded (extra.tcp_slow_reader_cases_verified_with_every_writer_held_back_at_first_read, extra.tcp_slow_reader_bytes_written_per_connection_at_first_read_min_max) and a run in which no clean scenario was like that is vacuous (a machinery error); the socket buffer sizes are the kernel's (no SO_SNDBUF / SO_RCVBUF is set); only the order 'first read after the stall' is imposed on the reader, how fast it reads afterwards is whatever the runtime gives. The writes are {} ms apart on purpose: the bridges of the subject put everything they can read at one go into ONE Push frame and the window counts frames, so a writer that never pauses travels as a few frames of many megabytes and no window ever fills (measured here: 256 MiB written within 3 s with nobody reading); how many frames the paced writes become is still the subject's and the scheduler's business", b.slow_reader_stall_s, tcp::K16_PAUSE.as_millis()));
     rep.assumptions.push(format!("with-request sub-matrix: 'in the same write' is one write_all of one buffer (request ++ first payload bytes, at most {} + the request) on a loopback TCP socket; whether the proxy receives both with ONE read is the kernel's business (on loopback a write of this size is queued as one piece) and is not checked; a client that sends before the reply is within the SOCKS4 memo and RFC 1928 (neither makes the client wait; the bytes wait in the proxy's buffers) and a direct connection would deliver the bytes", tcp::WITH_REQUEST_HEAD));
+    rep.assumptions.push(format!("odd-target-host sub-matrix: the local connection that names the odd host (Y) is judged only for 'not left hanging' (a failure reply, a close before the reply, a success answer followed by a close or reset, and an answer outside the protocol all end the waiting; how it ended is recorded in extra.tcp_odd_target_host_how_the_odd_request_ended); if Y is still open at the deadline and a direct connection from this process to (host, {}) is accepted, there is no verdict (the host leads somewhere here). Hosts an entry point cannot express are left out there (SOCKS4a and HTTP CONNECT: the octet that is not UTF-8; HTTP CONNECT: the name with a space, which would not be ONE request-target). A broken bystander (reset, EOF or other octets) is definitive unless it shows after more than half of the deadline has passed; 'still open and silent at the deadline' is deadline-type (counts only when it shows again with the scenario run alone). Whatever goes wrong before Y asks has keys tcp.{}.before-the-odd-request.<entry>", tcp::ODD_PORT, tcp::ODD_KEY));
     rep.assumptions.push("target refuses: a SOCKS/HTTP success answer followed by a close, a refusal answer, or a close before the answer all count as 'closed rather than left hanging'".into());
     rep.assumptions.push("the address inside the SOCKS5 UDP reply header is recorded (extra.socks5_udp_header_addr_*), not judged: the statement only demands a well-formed header that can be stripped".into());
     rep.assumptions.push("loopback only (127.0.0.1, a Unix socket and, for the targets of the IPv6-literal, dual-stack-name and two-address-families sub-matrices where it exists, [::1]); plain ws:// between client and server; keep-alive off; fresh client+server per matrix point".into());
@@ -1724,6 +1771,9 @@ pub fn run(args: &Args) -> Report {
         // the buffers within the stall; none at all is a sub-matrix that does not do its job here)
         if sums.slow_reader_cases_clean > 0 && sums.tcp.slow_reader_backed_up == 0 {
             why.push("every slow-reader scenario passed with a writing end that had written its whole payload before the slow end began to read (the buffers on the way swallowed it)");
+        }
+        if sums.tcp.odd_bystander_completed != odd_cases.len() as u64 || sums.tcp.odd_later_connection_worked != odd_cases.len() as u64 {
+            why.push("not every odd-target-host scenario went through its whole sequence (bystander X completed, later connection Z worked)");
         }
         if sums.tcp.refuse_granted_then_closed + sums.tcp.refuse_refused_reply + sums.tcp.refuse_closed_before_reply == 0 {
             why.push("no refusal was observed");
